@@ -32,7 +32,8 @@ RULE = ("case = one of 6 strategies x series of 2..60 points (>= 40% tie-rich in
         " Round-5 classes: a 'threads' kind - batches of 8 recreation requests on different data issued concurrently from 4 threads, each answer bit-identical to its sequential answer."
         " Round-6 classes: RuntimeWarnings on ordinary input are violations (see C04)."
         " Round-7 classes: an equal earlier request on another object whose answer was edited in place before the judged request."
-        " Round-8 classes: strategies as user classes derived from the library's; the request also through Weaver.recreate_from_average; ONE strategy object shared by the threads; first use of the library from several threads at once.")
+        " Round-8 classes: strategies as user classes derived from the library's; the request also through Weaver.recreate_from_average; ONE strategy object shared by the threads; first use of the library from several threads at once."
+        " Round-9 classes: an earlier request on the same averages with other strategy parameters (parameter sweep on one series).")
 REQUIRED_MONITORS = ["threads:rfa", "threads:first_use:rfa", "threads:first_use_yields_injected", "c05:intervals", "c05:constant_series", "c05:piecewise", "c05:cubic"]
 ASSUMPTIONS = ["parameters in the documented ranges; explicit a clamped to >= 2 as documented",
                "monotonicity for exponent < 0.132954 is a recorded known finding (K1), not asserted"]
